@@ -86,7 +86,8 @@ def signature(spec):
 
 def _source(version):
     return ("from vf.engines.values import gen_bytes\n\n\n"
-            "def wf0(n, tag):\n    return ('wf0', %d, n, tag, gen_bytes(n, 'pattern', %d))\n\n\n"
+            # non-ASCII source: func_code.py is written in place, a torn write can end inside a multi-byte character
+            "def wf0(n, tag):\n    # caf\u00e9 \u20ac\n    return ('wf0', %d, n, tag, gen_bytes(n, 'pattern', %d))\n\n\n"
             "def wf1(n, tag):\n    return ('wf1', 1, n, tag, gen_bytes(n, 'rand', 7))\n" % (version, version))
 
 
@@ -99,7 +100,7 @@ def _expected(fi, version, n, tag):
 
 def _load_module(moddir, version):
     path = os.path.join(moddir, MODNAME + ".py")
-    with open(path, "w") as f:
+    with open(path, "w", encoding="utf-8") as f:
         f.write(_source(version))
     shutil.rmtree(os.path.join(moddir, "__pycache__"), ignore_errors=True)
     if moddir not in sys.path:
